@@ -4,6 +4,7 @@ import Hive.Proofs.DerivedSorted
 import Hive.Proofs.DerivedWG
 import Hive.Proofs.DerivedLocks
 import Hive.Proofs.DerivedVar
+import Hive.Proofs.DerivedAsync
 import Hive.Spec.Derived
 import Hive.Gen.C14_Skel
 /-!
@@ -249,6 +250,36 @@ theorem C14_waitgroup_old_race_witness :
     let c := runSched (wgSys false) (wgRaceInit 2) wgRaceSched
     c.1.pending = [] ∧ c.1.dones > 0 ∧ c.1.trig = false ∧ c.2 = [.fin, .fin] :=
   wg_old_race_witness
+
+/-! ## DerivedSet, Counter, SortedSet under concurrency (asynchronous delivery models) -/
+
+/-- **DerivedSet under every interleaving**: writers of different sources, subscribers and
+unsubscribers interleave arbitrarily; a report reaches each subscription later than the write, in
+order, each delivery atomic (model `DSAStep`: per-subscription FIFO queues, unbounded).  Whenever
+nothing is queued and no removal is pending, the derived set is the union of the active sources. -/
+theorem C14_derived_set_concurrent (s : DSA) (hr : DSAReach DSA.init s) (hq : s.quiescent) (x : Nat) :
+    s.value x = true ↔ s.union x :=
+  DSA.value_iff_union s (DSA.inv_reach _ _ DSA.inv_init hr) hq x
+
+example : ∃ s, DSAReach DSA.init s ∧ ¬ s.quiescent :=
+  ⟨_, DSAReach.tail (DSAReach.refl _) (DSAStep.inherit _ 0), by
+    simp [DSA.quiescent, DSA.init]⟩
+
+/-- **Counter under every interleaving** of `Set` on the inputs (delivered later, in order, per
+monitor), `Monitor` and unsubscriptions: at quiescence the counter is the number of live monitors
+whose input satisfies the condition. -/
+theorem C14_counter_concurrent (cond : Int → Bool) (s : CTA) (hr : CTAReach (CTA.init cond) s) (hq : s.quiescent) :
+    s.counter = (s.expected : Nat) :=
+  CTA.counter_eq_expected s (CTA.inv_reach _ _ (CTA.inv_init cond) hr) hq
+
+/-- **SortedSet under every interleaving** of `Add` / `Delete` with weight updates whose callbacks run
+later (in order per element; updates of a removed element are dropped): the slice is always sorted
+w.r.t. the weights it has been told, with consistent indices and ends, and at quiescence every entry
+carries the *current* value of its weight variable — so the slice is sorted by current weight. -/
+theorem C14_sorted_set_concurrent (less : Bool) (s : SSA) (hr : SSAReach (SSA.init less) s) :
+    s.lag.Good ∧ (s.quiescent → ∀ ent ∈ s.lag.ents, ent.w = s.cur ent.el) :=
+  ⟨(SSA.inv_reach _ _ (SSA.inv_init less) hr).good,
+   fun hq => SSA.weights_current s (SSA.inv_reach _ _ (SSA.inv_init less) hr) hq⟩
 
 /-! ## No deadlock: lock order over the composed scripts -/
 
